@@ -63,7 +63,7 @@ pub fn run(ctx: &Ctx) -> Report {
     rep.assume("values are non-empty (the in-memory base store rejects empty values)");
     rep.assume("base store = cosmwasm_std MemoryStorage or another overlay (stacked caches)");
     rep.assume("the private write-cache is reached through the doc-hidden pass-through wrappers of cargo feature `verif`");
-    for k in ["c06/levels_at_depth_1", "c06/levels_at_depth_2", "c06/levels_at_depth_3", "c06/commit", "c06/discard", "c06/helper_commit", "c06/helper_discard", "c06/range_compared", "c06/inverted_or_equal_bounds", "c06/op_set_after_delete", "c06/op_overwrite", "c06/op_remove_absent"] {
+    for k in ["c06/levels_at_depth_1", "c06/levels_at_depth_2", "c06/levels_at_depth_3", "c06/commit", "c06/discard", "c06/helper_commit", "c06/helper_discard", "c06/range_compared", "c06/inverted_or_equal_bounds", "c06/op_set_after_delete", "c06/op_overwrite", "c06/op_remove_absent", "c06/iterator_adaptors_compared"] {
         rep.require(k);
     }
     rep
